@@ -596,7 +596,7 @@ Theorem cli_translate_tau_star_feeds_back s out :
      wf_theory G = true /\ known_class_theory G = None /\
      parse_theory_str out = PR_ok G /\ run_cli (Parse Theory) out = Stdout out).
 Proof.
-  cbn [run_cli run_translate]. unfold program_from_file. intros E.
+  unfold run_cli; cbn [run_cli_fuel run_translate]. unfold program_from_file. intros E.
   destruct (parse_program_text s) as [P| |] eqn:EP; cbn [bind] in E; try discriminate.
   destruct (TauStar.tau_star P) as [G|] eqn:EG; [|discriminate].
   assert (Eo : out = show_theory G) by (unfold print_theory in E; injection E as <-; reflexivity).
@@ -604,5 +604,5 @@ Proof.
   exists P, G. split; [reflexivity|]. split; [exact EG|]. split; [exact Eo|]. intros Hk.
   destruct (translate_output_reparses P G (parsed_program_names_ok s P EP) Hk EG) as (W & K & R).
   subst out. split; [exact W|]. split; [exact K|]. split; [exact R|].
-  cbn [run_cli run_parse]. unfold theory_from_file. rewrite R. reflexivity.
+  unfold run_cli; cbn [run_cli_fuel run_parse]. unfold theory_from_file. rewrite R. reflexivity.
 Qed.
